@@ -5,7 +5,7 @@ cAddrs == {"a1", "a2", "a3", "a4"}
 cKeyOrd == <<"v1", "v2", "none", "v3", "v8", "v9">>
 cGenesis == [keypers |-> <<"a1", "a2", "a3">>, thr |-> 2, eon0 |-> 0,
              vals |-> [k \in {"v1", "v2", "none", "v3", "v8", "v9"} |-> IF k \in {"v8", "v9"} THEN 10 ELSE 0],
-             forkOn |-> TRUE, forkH |-> 2, dev |-> TRUE]
+             forkOn |-> TRUE, forkH |-> 2, dev |-> TRUE, legacy |-> FALSE]
 cCands == << [keypers |-> <<"a2", "a3", "a4">>, thr |-> 1, act |-> 1, idx |-> 1] >>
 cSeenBlocks == {1}
 cCheckKeys == {"v1", "v3"}
